@@ -64,7 +64,7 @@ theorem inv_alignedEnter {g g' : GState} {out : Out} {n : Nat} (h : Inv cfg g)
     split at hs
     · cases hs
     · rename_i hchk
-      have hn : MinAlignOK n := minAlignOK_of_check (by simpa using hchk)
+      have hn : MinAlignOK n := minAlignOK_of_not_check hchk
       split at hs
       · rename_i hlt
         cases hs
@@ -120,7 +120,7 @@ theorem inv_scopedAlignedEnter {g g' : GState} {out : Out} {n : Nat} (h : Inv cf
     split at hs
     · cases hs
     · rename_i hchk
-      have hn : MinAlignOK n := minAlignOK_of_check (by simpa using hchk)
+      have hn : MinAlignOK n := minAlignOK_of_not_check hchk
       split at hs
       · cases hs
       · rename_i s' hs'
@@ -149,7 +149,7 @@ theorem inv_withSettings {g g' : GState} {out : Out} {n : Nat} {ga cl : Bool} (h
       split at hs
       · cases hs
       · rename_i hchk
-        have hn : MinAlignOK n := minAlignOK_of_check (by simpa using hchk)
+        have hn : MinAlignOK n := minAlignOK_of_not_check hchk
         split at hs
         · cases hs; exact h
         · split at hs
@@ -228,7 +228,7 @@ theorem inv_cleared (hc : CfgOK cfg) {s' : State} (hg : GeomInv cfg s') (hd : Ch
     (hu : UnallocEmpty s') (hnc : s'.cur ≠ .claimed) (hfr : s'.frames = []) (hp : s'.prepared = none) :
     Inv cfg ⟨{ s' with live := [], userCps := [] }, []⟩ := by
   refine ⟨hc, geom_congr (s := s') rfl rfl rfl hg, disj_congr (s := s') rfl hd, liveOK_nil rfl, hu, hnc, fun _ => rfl,
-    fun b hb => by cases hb, ?_, fun m hm => by cases hm, fun x hx => by cases hx, fun p hp' => ?_⟩
+    (fun b hb => by cases hb), (fun b hb => by cases hb), ?_, (fun m hm => by cases hm), (fun x hx => by cases hx), fun p hp' => ?_⟩
   · show FramesOK cfg _ s'.minAlign s'.frames []
     rw [hfr]; simp only [FramesOK]
   · rw [show ({ s' with live := [], userCps := [] } : State).prepared = s'.prepared from rfl, hp] at hp'
